@@ -413,6 +413,18 @@ def linear_str(lf):
 # structured path enumeration
 # ---------------------------------------------------------------------------------------------
 
+def _balanced(t):
+    d = 0
+    for ch in t:
+        if ch in "([{":
+            d += 1
+        elif ch in ")]}":
+            d -= 1
+            if d < 0:
+                return False
+    return d == 0
+
+
 class Ev:
     __slots__ = ("kind", "a", "b", "c", "node")
 
@@ -465,9 +477,17 @@ class PathOut:
 
 
 class Enumerator:
-    def __init__(self, ren=None, max_paths=40000, opaque_macros=("println", "print", "eprintln", "debug_assert", "debug_assert_eq", "trace"), combinators=False):
+    def __init__(self, ren=None, max_paths=40000, opaque_macros=("println", "print", "eprintln", "debug_assert", "debug_assert_eq", "trace"), combinators=False, scope=None):
         self.ren = ren
         self.combinators = combinators     # read Option::map / and_then / map_or / or_else as the branches they are
+        # local closures of the enclosing function (`let f = |a| ..;`): a call f(x) is read as the closure's body
+        self.closure_defs = {}
+        self._in_closure = []
+        if scope is not None:
+            for nd in walk(scope):
+                if nd.get("k") == "Let" and (nd.get("pat") or {}).get("k") == "Binding" and nd.get("init") is not None \
+                        and peel(nd["init"]).get("k") == "Closure" and nd["pat"].get("id"):
+                    self.closure_defs[nd["pat"]["id"]] = peel(nd["init"])
         self.max_paths = max_paths
         self.count = 0
         self.opaque_macros = set(opaque_macros)
@@ -500,27 +520,78 @@ class Enumerator:
             r = self.x_OptionCombinator(e)
             if r is not None:
                 return r
+        if self.closure_defs and k == "Call" and peel(e["f"]).get("k") == "Path" and peel(e["f"]).get("res") == "Local" \
+                and peel(e["f"]).get("id") in self.closure_defs and peel(e["f"]).get("id") not in self._in_closure:
+            clo = self.closure_defs[peel(e["f"])["id"]]
+            params = clo.get("params") or []
+            if len(params) == len(e.get("args") or []) and all(p_.get("k") == "Binding" for p_ in params):
+                outs = [PathOut([], "fall", "")]
+                for p_, a_ in zip(params, e["args"]):
+                    def bind(p_=p_, a_=a_):
+                        r_ = []
+                        for o in self.expr(a_):
+                            if o.exit != "fall":
+                                r_.append(o)
+                            elif o.val == p_["name"]:
+                                r_.append(PathOut(o.events, "fall", ""))          # f(num) with |num|: nothing to bind
+                            else:
+                                r_.append(PathOut(o.events + [Ev("let", p_["name"], o.val, node={"k": "Let", "pat": p_, "init": a_, "span": e.get("span")})], "fall", ""))
+                        return r_
+                    outs = self.seq(outs, bind)
+                self._in_closure.append(peel(e["f"])["id"])
+                try:
+                    def body():
+                        r_ = []
+                        for o in self.expr(clo["body"]):
+                            self._budget()
+                            r_.append(PathOut(o.events, "fall", o.val, None, o.valnode) if o.exit == "return" else o)
+                        return r_
+                    return self.seq(outs, body)
+                finally:
+                    self._in_closure.pop()
         if self.combinators and k == "MethodCall" and e.get("name") in ("map", "and_then", "map_err") \
                 and "Result<" in str(e.get("recv_ty", "")) and "Option<" not in str(e.get("recv_ty", "")).split("Result<")[0] \
-                and len(e.get("args") or []) == 1 and peel(e["args"][0]).get("k") == "Closure" and len(peel(e["args"][0]).get("params") or []) == 1:
-            # `res.map(|p| b)` is `match res { Ok(p) => Ok(b), Err(e) => Err(e) }` (and_then / map_err alike)
+                and len(e.get("args") or []) == 1 \
+                and ((peel(e["args"][0]).get("k") == "Closure" and len(peel(e["args"][0]).get("params") or []) == 1)
+                     or (peel(e["args"][0]).get("k") == "Path" and peel(e["args"][0]).get("res") == "Def" and e["name"] != "and_then")):
+            # `res.map(|p| b)` is `match res { Ok(p) => Ok(b), Err(e) => Err(e) }` (and_then / map_err alike); when the
+            # receiver's constructor is known on the path (`Err(x).map_err(F)`) nothing forks
             res = []
             clo = peel(e["args"][0])
             name = e["name"]
             hit, other = ("Ok", "Err") if name != "map_err" else ("Err", "Ok")
+
+            def apply(pre, inner_text, pat):
+                if clo.get("k") == "Path":
+                    return [PathOut(pre, "fall", "%s(%s(%s))" % (hit, path_canon(clo, self.ren), inner_text), None, e)]
+                outs_ = []
+                bindev = [] if inner_text is None else [Ev("let", clo["params"][0].get("name"), inner_text, node=None)]
+                for o in self.expr(clo["body"]):
+                    self._budget()
+                    if o.exit in ("fall", "return"):
+                        val = o.val if name == "and_then" else "%s(%s)" % (hit, o.val)
+                        outs_.append(PathOut(pre + bindev + o.events, "fall", val, None, e))
+                    else:
+                        outs_.append(PathOut(pre + bindev + o.events, o.exit, o.val, o.label, o.valnode))
+                return outs_
             for ro in self.expr(e["recv"]):
                 if ro.exit != "fall":
                     res.append(ro)
                     continue
                 X = ro.val
-                pat = "%s(%s)" % (hit, pat_canon(clo["params"][0], self.ren))
-                for o in self.expr(clo["body"]):
-                    self._budget()
-                    if o.exit in ("fall", "return"):
-                        val = o.val if name == "and_then" else "%s(%s)" % (hit, o.val)
-                        res.append(PathOut(ro.events + [Ev("letcond", pat, X, True, node=e)] + o.events, "fall", val, None, e))
+                mk = re.match(r"^(Ok|Err)\((.*)\)$", X or "")
+                if mk and _balanced(mk.group(2)):
+                    if mk.group(1) == hit:
+                        res.extend(apply(ro.events, mk.group(2), None))
                     else:
-                        res.append(PathOut(ro.events + [Ev("letcond", pat, X, True, node=e)] + o.events, o.exit, o.val, o.label, o.valnode))
+                        res.append(PathOut(ro.events, "fall", X, None, ro.valnode if ro.valnode is not None else e))
+                    continue
+                if clo.get("k") == "Path":
+                    pat = "%s(_)" % hit
+                    res.append(PathOut(ro.events + [Ev("letcond", pat, X, True, node=e)], "fall", "%s(%s(%s))" % (hit, path_canon(clo, self.ren), re.sub(r"\W+", "_", "%s_%s" % (X, hit.lower()))), None, e))
+                else:
+                    pat = "%s(%s)" % (hit, pat_canon(clo["params"][0], self.ren))
+                    res.extend(apply(ro.events + [Ev("letcond", pat, X, True, node=e)], None, pat))
                 res.append(PathOut(ro.events + [Ev("letcond", pat, X, False, node=e)], "fall", "%s(%s)" % (other, re.sub(r"\W+", "_", "%s_%s" % (X, other.lower()))), None, e))
             return res
         if self.combinators and k == "MethodCall" and e.get("name") == "then" and str(e.get("recv_ty", "")).lstrip("&") == "bool" \
@@ -1039,8 +1110,8 @@ def subst_lets(text, lets, rounds=4):
     return text
 
 
-def enum_paths(node, ren=None, max_paths=40000, combinators=False):
-    en = Enumerator(ren, max_paths, combinators=combinators)
+def enum_paths(node, ren=None, max_paths=40000, combinators=False, scope=None):
+    en = Enumerator(ren, max_paths, combinators=combinators, scope=scope)
     return en.expr(node)
 
 
